@@ -38,6 +38,17 @@ CHECKS = {
             "platforms and asked through subnet_of / in-member / in-group, with in-place member edits between repeated "
             "queries; TLC (Trace_C13) parses the operand meaning from the input tokens and judges every answer.",
             "7 (C13)"),
+    "C14": ("model_checking",
+            "TLA+ spec (Collapse: postcondition + the work-list algorithm as a step function) model-checked by TLC incl. "
+            "termination; TLC-enumerated input lists concretised and run through both collapse functions; results "
+            "validated by TLC at W=32",
+            "TLC explores the work-list algorithm from every list of <= 3 (quick) / 4 (thorough) prefixes over 3 bits: it "
+            "terminates (liveness under weak fairness), conserves the covered set at every step and ends in the "
+            "postcondition, and the symbolic union test used at full size equals the enumerated union; every such list "
+            "is embedded at several offsets, spelled per class/platform and collapsed by the real code, together with "
+            "random 32-bit lists, non-contiguous and foreign-type inputs; TLC (Trace_C14) decides set equality, length "
+            "bound, order, notes, class/platform and the refusals.",
+            "7 (C14)"),
 }
 
 NOT_YET = {
